@@ -253,6 +253,17 @@ sprh('ArtFile_ReadAnimations', ['C10', 'C11'], reach=EXC2, replace=RA_R, trusted
 G('sprh.ArtFile_ReadAnimations.content', ['C10', 'C11'], 'sprh', 'ArtFile_ReadAnimations', reach=EXC2, replace=RA_R, trusted=RA_T + ['generated pointer checks are OFF in this group (decided by sprh.ArtFile_ReadAnimations on the same extracted body)'],
   flags=['--object-bits', '12'], timeout=600, no_standard_checks=True, what='the count verification receives exactly the totals the section header announces; the table has the announced number of entries')
 sprh('ArtFile_ValidateImageMetadata', ['C10', 'C11'], reach=EXC2)
+# ---- U-SPRA (one animation record, real Animation struct)
+SPRA_T = ['ReadFrame / WriteFrame by the contracts proved in unit sprh (use mode, projected); the layer vector of a frame by the assumed vector model; vector<Frame>::resize and the size-prefixed read / write of the unknown container as assumed framing contracts']
+G('spra.ArtFile_ReadAnimation', ['C10', 'C11'], 'spra', 'ArtFile_ReadAnimation', reach=EXC2, replace=['Rd_Read', 'Rd_ReadU32T', 'vec_Frame_resize', 'ArtFile_ReadFrame', 'Reader_ReadSized_u32_vec_UnknownContainer'], trusted=[KR_TRUST] + SPRA_T,
+  flags=['--object-bits', '12'], timeout=600, what='animation record on arbitrary bytes: memory safe, stream stays valid and never moves backwards, frame table has exactly the announced number of entries, unknown words as in the file')
+G('spra.ArtFile_WriteAnimation', ['C10', 'C20'], 'spra', 'ArtFile_WriteAnimation', reach=EXC2, replace=['Wr_Write', 'ArtFile_WriteFrame', 'Writer_WriteSized_u32_vec_UnknownContainer'], trusted=[WR_TRUST] + SPRA_T,
+  flags=['--object-bits', '12'], timeout=600, what='animation record writer: fixed part and little-endian frame count first, frame tables / containers above 2^32 - 1 refused, earlier output untouched')
+sprh('ArtFile_VerifyCountsMatchHeader', ['C10', 'C11'], reach=EXC2, replace=['ArtFile_CountFrames_U'], trusted=['CountFrames as an assumed abstract contract (its totals are ghosts)'],
+     what='count verification: accepted iff the frame, layer and unknown totals CountFrames computes all equal the totals handed in')
+sprh('ArtFile_ReadImageMetadata', ['C10', 'C11'], reach=EXC2, replace=['Reader_ReadSized_u32_vec_ImageMeta', 'ArtFile_ValidateImageMetadata_R'],
+     trusted=[KR_TRUST, 'Read<uint32_t>(vector<ImageMeta>) as an assumed framing contract; ValidateImageMetadata by its ghost outcome (proved in group sprh.ArtFile_ValidateImageMetadata)'],
+     what='image table on arbitrary bytes: every normal return has validated the table just read; stream stays valid')
 
 # ---- C18: relational (two-run) determinism checks of every record constructor
 REL('maph', 'MapHeader_ctor', 'ctor', 'MapHeader', nbytes=20)
